@@ -2,6 +2,7 @@ import Lean.Data.Json
 import CbiVerif.Model.MacroExpand
 import CbiVerif.Spec.Prosser
 import CbiVerif.PP.Eval
+import CbiVerif.PP.ExpandOld
 /-! driver ops for C03: `c03` (model + spec + instrumentation for one (definitions, text)),
     `c03def` (one definition through the `#define` path and through the command-line path) -/
 open Lean
@@ -38,7 +39,7 @@ def specJ (r : Except CbiVerif.Spec.Prosser.Unspec (List CbiVerif.Spec.Prosser.T
   | .error e => Json.mkObj [("unspec", toString (repr e))]
 
 def oldJ (tbl : Table) (ts : List Tok) : Json :=
-  match runExpand tbl ts with
+  match CbiVerif.PP.Old.runExpand tbl ts with
   | .ok r => Json.mkObj [("ok", Json.arr (r.map tokJ).toArray)]
   | .error e => Json.mkObj [("exc", errName e)]
   | .sig s => Json.mkObj [("sig", s)]
